@@ -8,10 +8,11 @@ RULE = (
     "whole universe; distinct = hash of the case tuple"
 )
 ASSUMPTIONS = [
+    "re-entrant hooks only in the restricted form 'a pre hook of a parent assignment detaches another child of its parent argument'; such calls are judged by the observation rules R2 only",
     "the hook sequence of a *failed* children assignment (its rollback) is judged by the bracket/observation rules R1/R2 only",
     "calls ending in RecursionError are not judged (the event log may be truncated by the interpreter limit)",
 ]
-GATES = ["mon.C16.automaton", "mon.C16.R3", "mon.C16.R6", "C16.noop_silent", "C16.R5.post_fault_kept"] + [
+GATES = ["mon.C16.automaton", "mon.C16.R3", "mon.C16.R6", "C16.noop_silent", "C16.R5.post_fault_kept", "mon.C16.reentrant_observations"] + [
     "C16.ev." + k for k in ("pre_detach", "post_detach", "pre_attach", "post_attach", "pre_detach_children",
                             "post_detach_children", "pre_attach_children", "post_attach_children")]
 MONITORS = ("C16",)
